@@ -269,6 +269,60 @@ class Inliner:
             out = self.block(out, depth + 1)
         return out
 
+    def test_expr(self, e: ast.expr, depth: int = 0) -> ast.expr:
+        """The test of an ``if`` with calls of expression-bodied helpers (``def _rule(a, b): return <expr>``) replaced by the
+        expression - only at the top of the test, under ``not`` and as operands of ``and`` / ``or`` (where the helper call is
+        evaluated exactly when the expression would be), and only for name / constant / attribute arguments."""
+        if depth > 3:
+            return e
+        if isinstance(e, ast.UnaryOp) and isinstance(e.op, ast.Not):
+            e.operand = self.test_expr(e.operand, depth)
+            return e
+        if isinstance(e, ast.BoolOp):
+            e.values = [self.test_expr(v, depth) for v in e.values]
+            return e
+        c = self.callee_of(e)
+        if c is None:
+            return e
+        node: ast.FunctionDef = c.node  # type: ignore
+        body = [s_ for s_ in node.body if not (isinstance(s_, ast.Expr) and isinstance(s_.value, ast.Constant))]
+        a = node.args
+        if len(body) != 1 or not isinstance(body[0], ast.Return) or body[0].value is None or a.vararg or a.kwarg or a.posonlyargs \
+                or any(isinstance(x, (ast.Lambda, ast.NamedExpr, ast.ListComp, ast.GeneratorExp, ast.SetComp, ast.DictComp))
+                       for x in ast.walk(body[0].value)):
+            return e
+        params = [x.arg for x in a.args] + [x.arg for x in a.kwonlyargs]
+        actual: Dict[str, ast.expr] = {}
+        if any(isinstance(x, ast.Starred) for x in e.args) or any(k.arg is None for k in e.keywords) or len(e.args) > len(a.args):
+            return e
+        for p_, v in zip([x.arg for x in a.args], e.args):
+            actual[p_] = v
+        for k in e.keywords:
+            if k.arg not in params or k.arg in actual:
+                return e
+            actual[k.arg] = k.value
+        dfl = dict(zip([x.arg for x in a.args][len(a.args) - len(a.defaults):], a.defaults))
+        dfl.update({x.arg: d for x, d in zip(a.kwonlyargs, a.kw_defaults) if d is not None})
+        for p_ in params:
+            if p_ not in actual:
+                if p_ not in dfl:
+                    return e
+                actual[p_] = dfl[p_]
+        if not all(isinstance(v, (ast.Name, ast.Constant, ast.Attribute)) for v in actual.values()):
+            return e
+        sub = copy.deepcopy(body[0].value)
+
+        class S(ast.NodeTransformer):
+            def visit_Name(self, n: ast.Name):
+                return copy.deepcopy(actual[n.id]) if n.id in actual and isinstance(n.ctx, ast.Load) else n
+
+        sub = S().visit(sub)
+        ast.copy_location(sub, e)
+        for x in ast.walk(sub):
+            ast.copy_location(x, e)
+        self.inlined.append(c.name)
+        return self.test_expr(sub, depth + 1)
+
     def block(self, body: List[ast.stmt], depth: int = 0) -> List[ast.stmt]:
         out: List[ast.stmt] = []
         for st in body:
@@ -290,6 +344,8 @@ class Inliner:
             if rep is not None:
                 out.extend(rep)
                 continue
+            if isinstance(st, ast.If):
+                st.test = self.test_expr(st.test)
             for fld in ("body", "orelse", "finalbody"):
                 b = getattr(st, fld, None)
                 if isinstance(b, list) and b and isinstance(b[0], ast.stmt):
